@@ -43,8 +43,9 @@ ASSUMPTIONS = [
     "gains (stiff closed loops) are excluded from the fault families because "
     "they are slow, not non-terminating; a bundled nonlinear scenario that "
     "exceeds its call budget is recorded as undecided, never as a violation",
-    "closed-form comparison (fault-free, linear) at a tolerance calibrated on "
-    "the unchanged tree with a factor-20 margin (RK45 rtol 1e-3)",
+    "closed-form comparison (fault-free, linear) at tolerances calibrated per "
+    "growth class on the unchanged tree with a factor-20 margin (RK45 rtol "
+    "1e-3): 0.016 for non-growing loops up to 0.46 for e^(>15) growth",
     "scipy RK45, numba, numpy are trusted",
 ]
 FAULT_KINDS = ["ctrl:always", "ctrl:after", "ctrl:window", "ctrl:at_zero",
@@ -59,7 +60,11 @@ HARD_CAP_S = 90.0
 CHUNK = 8
 CALL_CAP = 200_000   # synthetic plants: 50 x the largest count (3 693) seen in calibration
 CALL_CAP_BUNDLED = 1_000_000   # bundled systems: give up (undecided, never a violation)
-CLOSED_FORM_TOL = 0.35  # 20 x the largest deviation (0.0186) seen in calibration
+# closed-form tolerance by growth class (largest positive real part of the
+# closed loop x simulated time): 20 x the largest deviation seen in a
+# calibration of 4 402 fault-free legs on the unchanged tree
+CLOSED_FORM_TOL = [(0.01, 0.016), (1.0, 0.04), (5.0, 0.15), (15.0, 0.29),
+                   (float("inf"), 0.46)]
 BAD = {"nan": float("nan"), "inf": float("inf"), "-inf": float("-inf"),
        "1e50": 1e50, "-1e11": -1e11, "1e10": 1e10, "-1e10": -1e10}
 
@@ -463,11 +468,15 @@ def execute(doc: dict) -> dict:
                         ref - ode[r_, :sd]))) / scale)
                 core.bump(res["probes"], "closed_form_checked")
                 res["events"].append(["closed", index, round(worst, 6)])
-                if worst > CLOSED_FORM_TOL:
+                growth = max(0.0, float(np.max(np.linalg.eigvals(
+                    closed).real))) * float(t[-1])
+                tol = next(v for lim, v in CLOSED_FORM_TOL if growth < lim)
+                if worst > tol:
                     core.violation(
                         res, "differs-from-analytic-solution",
                         f"{where}: relative deviation {worst:.4g} from "
-                        f"expm((A+pBK)t)s0 exceeds {CLOSED_FORM_TOL}")
+                        f"expm((A+pBK)t)s0 exceeds {tol} (growth class "
+                        f"{growth:.3g})")
                     break
             # differentials
             sc, df = diff_from_ode(ode, sd)
